@@ -27,7 +27,7 @@ from . import vlib
 from .vlib import Discrepancy, Infra
 
 # properties whose decision functions are additionally tied by translation (Core/TranslatedTie.v)
-TRANSLATED_TIE = {"C03", "C09", "C14"}
+TRANSLATED_TIE = {"C03", "C04", "C09", "C14"}
 
 
 class Case:
